@@ -27,5 +27,6 @@ if [ -d "$S/target" ]; then
   find "$S/target" -depth \( -name 'physis*' -o -name 'libphysis*' \) -exec rm -rf {} + 2>/dev/null || true
   mv "$S/target" .cache/kani-target
 fi
+./check --list >/dev/null  # also builds the shadow KANI_HOME (goto-instrument wrapper)
 verus --version >/dev/null
 echo "setup done: $(du -sh .cache/kani-target 2>/dev/null | cut -f1) dependency cache"
